@@ -277,7 +277,7 @@ class _Run:
             v = self.ev(a.test, env)
             if self.involves_input(a.test, env):
                 self.hz(a, {"AssertionError"}, f"`assert {short(a.test, 50)}` depends on the input")
-            return env
+            return self.refine(a.test, env, True) or env
         if isinstance(a, ast.Delete):
             for t in a.targets:
                 if isinstance(t, ast.Subscript):
@@ -397,6 +397,10 @@ class _Run:
                 is_none = truth == isinstance(op, ast.Is)
                 if cur is not None and cur.kind == "I":
                     env.vars[l.id] = Val("I", (cur.types & {"none"}) if is_none else (cur.types - {"none"}), cur.own, cur.hk)
+                elif is_none:
+                    env.facts = env.facts | {("none", l.id)}
+                else:
+                    env.facts = frozenset(f for f in env.facts if f != ("none", l.id))
                 return env
             if isinstance(op, (ast.In, ast.NotIn)):
                 member = truth == isinstance(op, ast.In)
@@ -544,6 +548,10 @@ class _Run:
         if text in self.attr_over:
             return self.attr_over[text]
         base = self.ev(e.value, env)
+        if isinstance(e.value, ast.Name) and e.value.id == "self" and self.fi.cls is not None and "self" not in env.vars:
+            known = self.known_self_attrs()
+            if known is not None and e.attr not in known and not (e.attr.startswith("__") and e.attr.endswith("__")):
+                self.hz(e, {"AttributeError"}, f"`self.{e.attr}`: {self.fi.cls.name} (and its bases) define no attribute `{e.attr}`")
         if base.kind == "T":
             return T
         # attribute read on input
@@ -554,6 +562,29 @@ class _Run:
         if not isinstance(self.parents.get(e), ast.Call) or self.parents[e].func is not e:
             self.hz(e, {"AttributeError"}, f"`{short(e, 50)}`: attribute read on a value that may be anything ({sorted(base.types)})")
         return TOP
+
+    def known_self_attrs(self):
+        """names defined on the class of the analysed method: annotations, class attributes, methods, and
+        `self.x = ...` stores, over the repo part of the MRO; None when a base is outside the repo (unknown)"""
+        cache = self.an.__dict__.setdefault("_self_attrs", {})
+        q = self.fi.cls.qualname
+        if q in cache:
+            return cache[q]
+        names = set()
+        ok = True
+        for c in self.model.mro(q):
+            ci = self.model.classes.get(c)
+            if ci is None:
+                continue
+            if len(ci.raw_bases) != len(ci.bases) and any(b not in ("object", "Generic", "Protocol") and not b.startswith("Generic[") for b in ci.raw_bases if b.split(".")[-1].split("[")[0] not in {x.split(".")[-1] for x in ci.bases}):
+                ok = False
+            names |= set(ci.annotations) | set(ci.attrs) | set(ci.methods)
+            for m in ci.methods.values():
+                for n in ast.walk(m.node):
+                    if isinstance(n, ast.Attribute) and isinstance(n.ctx, ast.Store) and isinstance(n.value, ast.Name) and n.value.id == "self":
+                        names.add(n.attr)
+        cache[q] = names if ok else None
+        return cache[q]
 
     def ev_Subscript(self, e, env):
         base = self.ev(e.value, env)
@@ -919,6 +950,9 @@ class _Run:
             return  # re-raise: judged with its handler in resolve_handlers
         exc = a.exc
         self.ev(exc, env)
+        if isinstance(exc, ast.Name) and ("none", exc.id) in env.facts:
+            self.hz(a, {"TypeError"}, f"`{short(a, 40)}`: `{exc.id}` is None here (asserted / tested just before): `raise None` is a TypeError")
+            return
         cls = self.exc_class(exc, env)
         if cls in ("ValidationError", None):
             if cls is None:
